@@ -9,6 +9,7 @@ verus! {
 //@include prelude/error.rs
 //@include prelude/pathspec.rs
 //@include prelude/root_types.rs
+//@include prelude/shims.rs
 //@broadcast-here
 pub type RawMode = u32;
 use rustix_fs::Dev;
@@ -40,6 +41,8 @@ pub mod utils {
 //@item src/resolvers.rs :: struct Resolver | sub.Resolver
 impl Resolver {
 //@use resolvers.Resolver.resolve
+//@use resolvers.Resolver.open
+    pub fn default_resolver() -> Resolver { Resolver { backend: ResolverBackend::EmulatedOpath, flags: ResolverFlags { bits: 0 } } }
 }
 
 //@item src/root.rs :: enum InodeType | sub.InodeType
@@ -86,6 +89,8 @@ pub open spec fn inode_target(t: InodeType) -> Seq<u8> {
 }
 
 impl RootRef<'_> {
+//@prove root.RootRef.from_fd
+//@prove root.RootRef.open_subpath
 //@prove root.RootRef.resolve c14
 //@prove root.RootRef.resolve_nofollow c14
 //@prove root.RootRef.resolve_parent c14
